@@ -219,6 +219,28 @@ func (p *Pair) Restart(onI bool) {
 	w.Apply(EvRestart())
 }
 
+// StopRestart: one engine is asked to stop while connected (it logs out first), the default schedule runs until it
+// has stopped (its LogoutTimeout fires if the peer never answers), then it is recreated on its persistent store.
+func (p *Pair) StopRestart(onI bool) {
+	w := p.A
+	if onI {
+		w = p.I
+	}
+	p.Trace = append(p.Trace, fmt.Sprintf("stop I=%v", onI))
+	p.apply(w, EvStop())
+	for i := 0; i < 60 && !w.VS.Snapshot().Stopped; i++ {
+		if !p.Step(false) {
+			break
+		}
+	}
+	if !w.VS.Snapshot().Stopped {
+		if e := EvTimeout(quickfix.VerifLogoutTimeout); w.Enabled(e) {
+			p.apply(w, e)
+		}
+	}
+	p.Restart(onI)
+}
+
 // Timers fires the heartbeat timer on both sides (one heartbeat interval of silence).
 func (p *Pair) Timers() {
 	for _, w := range []*World{p.I, p.A} {
